@@ -25,12 +25,25 @@ def task_canon_cases(job):
     return c07.task_canon_cases(job)
 
 
-TASKS = {"verify_cases": task_verify_cases, "canon_cases": task_canon_cases}
+def task_calls_behaviours(job):
+    from . import calls_engine
+    out = []
+    for idx, h in enumerate(job["behaviours"]):
+        bad, n, ncalls = calls_engine.replay_behaviour(h, job["seed"], idx, threaded=False)
+        out.append({"bad": bad, "n": n, "calls": ncalls})
+    return out
+
+
+TASKS = {"verify_cases": task_verify_cases, "canon_cases": task_canon_cases, "calls_behaviours": task_calls_behaviours}
 
 
 def main():
     with open(sys.argv[1]) as f:
         job = json.load(f)
+    import os
+    repo = os.path.abspath(os.environ.get("VERIF_REPO", "/repo"))
+    if repo not in sys.path[:1]:
+        sys.path.insert(0, repo)          # pre-imports of library modules must come from the tree under verification
     for m in job.get("preimports", []):
         importlib.import_module(m)
     for mod in job.get("task_modules", []):
